@@ -125,6 +125,7 @@ Proof.
       assert (Hw2 : w = writer_of s2) by (subst w; reflexivity). rewrite Hw2.
       destruct (write_top s2 ([] ++ x) Hb2) as [G' N']. split; [eapply grows_trans; eassumption|congruence].
     + destruct (nth_error defs d) as [df|]; [|cbn [fst]; split; [apply grows_refl; exact Hb|exact Hn]].
+      rewrite Hn.
       set (s0 := set_next s (Some (CRef body me))).
       assert (Hb0 : bufs s0 <> []) by exact Hb.
       destruct (call_def_ok (exec defs f) IH df s0 Hb0) as [G N].
